@@ -1,5 +1,6 @@
 import SctpVerif.Spec.SenderSpec
 import SctpVerif.Spec.ShiftSpec
+import SctpVerif.Spec.PolicySpec
 import SctpVerif.Model.Sender
 import SctpVerif.Driver.Util
 /-!
@@ -17,12 +18,46 @@ RACK/PTO marks), `t3` (T3 expiries while the clock advanced).
 namespace Drv.Assoc
 open Drv SenderSpec
 
+/-- retransmission-policy bookkeeping for P_C06 on the direct-drive log -/
+structure PolSt where
+  p : PolicySpec.St := {}
+  policy : List (Nat × Nat × Nat) := []   -- si ↦ (relType, relVal)
+  dcep : List Nat := []                  -- streams that carried DCEP (always sent reliably)
+  nowUs : Nat := 0
+  deriving Inhabited
+
+def polStep (st : PolSt) (op impl : List String) : PolSt × List String :=
+  match op with
+  | "new" :: _ => ({}, [])
+  | ["open", si, _u, rt, rv, _th] => ({ st with policy := (parseNat! si, parseNat! rt, parseNat! rv) :: st.policy.filter (·.1 != parseNat! si) }, [])
+  | ["write", si, ppi, _len] => (if ppi == "50" then { st with dcep := parseNat! si :: st.dcep } else st, [])
+  | ["tick", d] => ({ st with nowUs := st.nowUs + parseNat! d * 1000 }, [])
+  | ["gather"] => Id.run do
+    let mut st := st
+    let mut out : List String := []
+    for tok in impl do
+      let f := tok.splitOn ":"
+      let parsed : Option (Nat × Nat × String) := match f with
+        | ["DATA", tsn, si, _, _, fl] => some (parseNat! tsn, parseNat! si, fl)
+        | ["IDATA", tsn, si, _, _, _, fl] => some (parseNat! tsn, parseNat! si, fl)
+        | _ => none
+      if let some (tsn, si, fl) := parsed then
+        let pol := match st.policy.find? (·.1 == si) with
+          | some (_, rt, rv) => if st.dcep.contains si then (0, 0) else (rt, rv)
+          | none => (0, 0)
+        let (p, e) := PolicySpec.onData st.p 0 st.nowUs tsn si fl pol
+        st := { st with p := p }
+        out := out ++ e.toList
+    return (st, out)
+  | _ => (st, [])
+
 structure St where
   spec : SenderSpec.St := {}
   m : Sender.St := default
   sis : List Nat := []                 -- streams the harness has a Stream object for (ascending)
   ora : List String := []
   sh : ShiftSpec.St := {}
+  pol : PolSt := {}
   deriving Inhabited
 
 def oraKey (ora : List String) (k : String) : Option String :=
@@ -149,7 +184,8 @@ def specStep (st : SenderSpec.St) (op impl : List String) : SenderSpec.St × Lis
 def step (st : St) (op impl : List String) : St × Option String × List String :=
   let (sp, v) := specStep st.spec op impl
   let (sh, e) := ShiftSpec.step st.sh op impl
-  let (st', r) := modelStep { st with spec := sp, sh := sh } op impl
-  (st', r, v ++ e.toList)
+  let (pol, pv) := polStep st.pol op impl
+  let (st', r) := modelStep { st with spec := sp, sh := sh, pol := pol } op impl
+  (st', r, v ++ e.toList ++ pv)
 
 end Drv.Assoc
